@@ -1,5 +1,51 @@
-"""T4 placeholder: filled in later (defaults pass the check for efforts 1..9)."""
+"""T4 - every effort from 1 to 9 yields parameters that pass their own check.
+
+Finite-domain constant folding (cqverif/consteval.py) of ColoquinteParameters(effort) and its nested parameter constructors for
+each of the nine efforts, followed by ColoquinteParameters::check(): a reachable throw (or failing assert) for some effort is
+the violation, with the effort, the message and the throwing line.  binary32 / binary64 are kept apart, so a bound written as a
+float literal (0.9f) against a double member is compared the way the compiler compares it."""
+from ..consteval import ConstEval, Thrown, AssertFailed, Unsupported, Obj
+from ..model import loc_str
+from .common import CQ
+
+ROOT = CQ + "ColoquinteParameters"
+
+
+def _summary(o, prefix="", out=None):
+    out = {} if out is None else out
+    for k, v in o.fields.items():
+        if isinstance(v, Obj):
+            _summary(v, prefix + k + ".", out)
+        else:
+            out[prefix + k] = v
+    return out
 
 
 def run(ctx, rep):
-    rep.note("T4 not implemented yet")
+    prog = ctx.prog
+    if not prog.funcs_by_q.get(ROOT + "::ColoquinteParameters"):
+        rep.unknown("T4", None, None, "ColoquinteParameters", "constructor not found (shape changed)")
+        return
+    for effort in range(1, 10):
+        ev = ConstEval(prog)
+        what = "ColoquinteParameters(%d) and its check()" % effort
+        try:
+            obj = ev.construct(ROOT, [effort])
+            ev.call_method(obj, "check")
+        except Thrown as t:
+            f = ctx.func_containing(t.node)
+            rep.violation("T4", t.node, f, what, "effort %d is refused: throws \"%s\"" % (effort, t.msg[:90]),
+                          key="effort %d|default parameters rejected in %s" % (effort, f.short if f else "?"))
+            continue
+        except AssertFailed as a:
+            f = ctx.func_containing(a.node)
+            rep.violation("T4", a.node, f, what, "an assert on the construction path fails for effort %d" % effort,
+                          key="effort %d|assert fails in %s" % (effort, f.short if f else "?"))
+            continue
+        except Unsupported as u:
+            rep.unknown("T4", None, None, what, "outside the constant-folding fragment: %s" % u)
+            continue
+        vals = _summary(obj)
+        rep.holds("T4", "-", None, what, "%d members folded, no throw reachable (e.g. %s)" % (
+            len(vals), ", ".join("%s=%s" % (k, ("%.6g" % v) if isinstance(v, float) else (v[2] if isinstance(v, tuple) else v))
+                                 for k, v in sorted(vals.items())[:4])))
